@@ -206,6 +206,27 @@ def handle : List String → String
     match pRats ws with
     | some l => (circsq br l).getD "bad-op"
     | none => "bad-op"
+  | ["surf", bb, col, hf] =>
+    match pBool bb, pBool col, pBool hf with
+    | some bb, some col, some hf =>
+      let r := intersectsSurface surfCfg { bbOverlap := bb, collide := col, hasFirst := hf }
+      s!"{bit r.1} {r.2.name}"
+    | _, _, _ => "bad-op"
+  | ["slab", pc, ph, lo, hi] =>
+    let cache : Option (Option (Rat × Rat)) :=
+      if pc == "none" then some none else
+        match parseRat pc, parseRat ph with
+        | some a, some b => some (some (a, b))
+        | _, _ => none
+    match cache, parseRat lo, parseRat hi with
+    | some cache, some lo, some hi =>
+      let r := footprintSlab slabCfg cache lo hi
+      s!"{showRat r.1.1} {showRat r.1.2} {bit r.2.2}"
+    | _, _, _ => "bad-op"
+  | ["inner", a, b] =>
+    match pBool a, pBool b with
+    | some a, some b => bit (containsRegionInner innerCfg a b)
+    | _, _ => "bad-op"
   | ["center"] => (match fallbackCenter with | .origin => "origin" | .position => "position")
   | op :: ws =>
     match pRats ws with
